@@ -219,8 +219,8 @@ def extra_phase(tier, seed):
     findings = [('C11/wrong-bytes/quoted-string-lattice', {'kind': 'lattice', 'line': j['line'], 'bytes': j['bytes']}, d) for j, d in bad]
     return {'evals': len(jobs), 'cases': len(jobs), 'findings': findings, 'nt': {'lattice:' + j['line'] for j in jobs[:2000]},
             'report': {'quoted_string_lattice': {'lines_enumerated': len(jobs), 'assembler_runs': runs, 'exhaustive': True,
-                                                 'elements': 'a ; , blank other-quote \\\\ \\quote \\n', 'max_elements': 3 if tier == 'thorough' else 2,
-                                                 'max_comment_length': 2 if tier == 'thorough' else 1}},
+                                                 'elements': 'a ; , blank other-quote \\\\ \\quote \\n', 'max_elements': Q.STRING_BOUNDS[tier if tier in Q.STRING_BOUNDS else 'quick'][0],
+                                                 'max_comment_length': Q.STRING_BOUNDS[tier if tier in Q.STRING_BOUNDS else 'quick'][1]}},
             'samples': [{'lattice_line': j['line'], 'expected_bytes': bytes(j['bytes']).hex()} for j in jobs[100:102]]}
 
 
